@@ -210,7 +210,7 @@ class Case:
         return "\n".join(L) + "\n"
 
 
-def rechunk(stream: bytes, sizes):
+def rechunk(stream: bytes, sizes, cap=2048):
     """split a stream into read tokens according to sizes (cycled), each <= 2048"""
     toks = []
     i = 0
@@ -223,7 +223,7 @@ def rechunk(stream: bytes, sizes):
     while i < len(stream):
         n = sizes[k % len(sizes)] if sizes else len(stream)
         k += 1
-        n = max(1, min(n, 2048, len(stream) - i))
+        n = max(1, min(n, cap, len(stream) - i))
         toks.append("d:" + hexspec(stream[i:i + n]))
         i += n
     return toks
